@@ -19,7 +19,8 @@ for p in props:
         "engine": "lean-refinement+correspondence",
         "level_claimed": {"category": "proof", "text": c['text'], "design_ref": c.get('design_ref', 'DESIGN.md section 6, ' + p['id'])},
         "level_note": c.get('note', "trusted: Lean kernel + propext/Classical.choice/Quot.sound; the hand-written L1 model is tied to /repo by a sampled differential correspondence check on every run (both build profiles); std pieces modelled by meaning (DESIGN.md 7)"),
-        "technique": "machine-checked proof in Lean 4 (refinement L1 model -> L0 spec) + model/implementation correspondence check",
+        "technique": "machine-checked proof in Lean 4 (refinement L1 model -> L0 spec) + model/implementation correspondence check"
+                     + ("; the word-level kernel (Integer::mask/cadd/csub/wmul) is re-translated from utils.rs on every run and proved equal to the model, with an SMT search for differing words when that equality breaks" if p['id'] in ("C01", "C02") else ""),
     })
 m = {"version": 1, "setup_cmd": "./setup.sh",
      "hooks": {"guard": "bva_verif", "enable": "none needed: raw storage is reachable through the public API (into_inner, new, pub Bv variants); no hook commits exist",
